@@ -325,6 +325,69 @@ def case_iso(ctx, cls, n1, n2, pairs, as_nx):
         S.check_models(ctx, "iso", desc, F, objs, ("iso", n1, m1, n2, m2, cls, as_nx), nontrivial=n1 * n2 > 0)
 
 
+def case_cli_two_graphs(ctx):
+    """`iso G1 -e G2` and `iso G1` asked on the command line of both tools, the graphs given as files -- among them the
+    graphs with no vertex and with one vertex, which no construction of the command line can produce: the number of
+    models is the number of isomorphisms (automorphisms without -e)."""
+    import os
+    import shutil
+    import tempfile
+    import cnfgen.graphs as cg
+    from ..cliharness import cli_formula
+    tt.selfcheck()
+    tmp = tempfile.mkdtemp(prefix="c02cli-")
+    try:
+        graphs = [(0, []), (1, []), (2, []), (2, [(1, 2)]), (3, [(1, 2)]), (3, [(1, 2), (2, 3)]), (3, [(1, 3), (2, 3)]), (3, [(1, 2), (2, 3), (1, 3)])]
+        files = {}
+        for i, (n, E) in enumerate(graphs):
+            G = cg.Graph(n)
+            for e in E:
+                G.add_edge(*e)
+            for fmt in ("kthlist", "dimacs", "gml"):
+                p_ = os.path.join(tmp, "g%d.%s" % (i, fmt))
+                try:
+                    cg.writeGraph(G, p_, "simple", fmt)
+                    files[i, fmt] = p_
+                except Exception:       # noqa: BLE001
+                    pass
+
+        def isos(a, b):
+            (n1, E1), (n2, E2) = graphs[a], graphs[b]
+            if n1 != n2:
+                return 0
+            s1, s2 = set(E1), set(E2)
+            return sum(1 for perm in itertools.permutations(range(1, n1 + 1))
+                       if all(((min(perm[u - 1], perm[v - 1]), max(perm[u - 1], perm[v - 1])) in s2) == ((u, v) in s1) for u, v in S.pairs(n1)))
+        for a in range(len(graphs)):
+            for b in [None] + list(range(len(graphs))):
+                fa = ("kthlist", "dimacs", "gml")[(a + (b or 0)) % 3]
+                fb = ("gml", "kthlist", "dimacs")[(a + (b or 0)) % 3]
+                if (a, fa) not in files or (b is not None and (b, fb) not in files):
+                    continue
+                for tool in ("cnfgen", "pbgen"):
+                    argv = [tool, "-q", "iso", files[a, fa]] + ([] if b is None else ["-e", files[b, fb]])
+                    label = "%s iso <graph %r>%s" % (tool, graphs[a], "" if b is None else " -e <graph %r>" % (graphs[b],))
+                    try:
+                        F = cli_formula(tool, argv)
+                    except BaseException as e:      # noqa: BLE001
+                        if isinstance(e, KeyboardInterrupt) or type(e).__name__ == "CaseTimeout":
+                            raise
+                        ctx.count("cli_two_graphs_refused")
+                        continue
+                    ctx.count("cli_two_graph_commands")
+                    expected = isos(a, a if b is None else b)
+                    if b is None:
+                        expected -= 1           # the automorphism formula excludes the identity
+                    if F.number_of_variables() <= 16:
+                        got = tt.count(tt.models_of(F))
+                        if got != max(expected, 0):
+                            ctx.violation("iso:cli:model-count", "%s: %d models, the graphs have %d %s" %
+                                          (label, got, max(expected, 0), "non-trivial automorphisms" if b is None else "isomorphisms"))
+                    ctx.judged(("cli-iso", a, b, tool), nontrivial=True, sample={"command": label})
+    finally:
+        shutil.rmtree(tmp, ignore_errors=True)
+
+
 def case_auto(ctx, cls, n, masks, as_nx):
     tt.selfcheck()
     g = gens()
@@ -554,6 +617,7 @@ def special_shapes(n):
 def workload(tier, seed):
     quick = tier == "quick"
     gm = graph_masks(tier, seed)
+    yield "cli_two_graphs", {}
     # tilings decided exactly on 12-14 vertices (one variable per vertex): forests with isolated vertices, hubs, caterpillars --
     # graphs in which different closed neighbourhoods are written with the same digits ({1,2} / {12}, {1,23} / {12,3})
     import random as _random
@@ -927,6 +991,11 @@ def case_history(ctx, cls, rseed):
     for fam, gen in fams:
         for i in range(3):
             S.graph_history_check(ctx, fam, "%s[%s]" % (fam, cls), gen, r, n=r.randint(4, 6))
+    # the same on sparse graphs with 31-70 vertices (per-object memos may start at any size)
+    for fam, gen in fams[1:4] + [("matching", lambda G: g.PerfectMatchingPrinciple(G, formula_class=K))]:
+        for n_ in (31, 32, 33, 40, 64, 70):
+            S.graph_history_check(ctx, fam, "%s[%s]" % (fam, cls), gen, r, n=n_, rounds=4, max_edges=2 * n_)
+            ctx.count("histories_on_graphs_with_31_to_70_vertices")
 
 
 def case_tseitin_highdeg(ctx, cls, d):
